@@ -129,7 +129,22 @@ func hostileCookie(c *sim.Case, name, sid string) string {
 }
 
 func hostilePath(c *sim.Case) string {
-	switch sim.Pick(c, "path", 16) {
+	switch sim.Pick(c, "path", 19) {
+	case 15, 16, 17:
+		// a callback query put together from everything an authorization response may carry (RFC 6749 4.1.2 and
+		// 4.1.2.1, OIDC session management, hybrid-flow leftovers), with any value
+		names := []string{"code", "state", "error", "error_description", "error_uri", "session_state", "iss", "scope", "nonce", "id_token", "access_token", "token_type", "expires_in"}
+		var ps []string
+		for i, n := 0, 1+sim.Pick(c, "cbq.n", 4); i < n; i++ {
+			v := sim.PickStr(c, "cbq.v", "", "x", "access_denied", "login_required", "a%20b", "%zz", "y", "0", "-1", strings.Repeat("A", 300))
+			nm := names[sim.Pick(c, "cbq.name", len(names))]
+			if sim.Weighted(c, "cbq.bare", 6, 1) == 1 {
+				ps = append(ps, nm)
+			} else {
+				ps = append(ps, nm+"="+v)
+			}
+		}
+		return "/cb?" + strings.Join(ps, "&")
 	case 0:
 		return ""
 	case 1:
@@ -549,7 +564,7 @@ func TestC15(t *testing.T) {
 	if r.Shard%2 == 1 {
 		sim.EnableDebugLogging() // odd shards run with every logging scope at debug level
 	}
-	r.Rule = "four generators, half of the shards with all logging scopes at debug level: (a) CheckRequests with nil at every level, absent header map, hostile cookie headers (no '=', many '=', ';;', NULs, 64 KiB, duplicated session cookies), hosts, schemes, paths and callback queries (malformed escapes, ';', 5000 parameters, fragments), aimed at an authenticated, a pending and an unknown session, through Process and through server.Check; (b) token-endpoint bodies from a JSON grammar (null, [], scalars, truncated, invalid UTF-8, duplicate keys, deep nesting, every member with every JSON type incl. 1e400) and validly signed ID tokens whose claims/headers have unexpected types, on the login and the refresh path; (c) odd discovery and JWKS documents; (d) half-empty store records and junk planted in Redis; (e) hostile requests over gRPC (incl. request-id metadata) against the built service binary, where a panic shows as the death of the process. Oracle: recover() => violation; verdict well-formedness. Non-trivial = the input got past request validation (an HTTP request was present) / reached the provider or the store; distinct = distinct input."
+	r.Rule = "four generators, half of the shards with all logging scopes at debug level: (a) CheckRequests with nil at every level, absent header map, hostile cookie headers (no '=', many '=', ';;', NULs, 64 KiB, duplicated session cookies), hosts, schemes, paths and callback queries (malformed escapes, ';', 5000 parameters, fragments, and queries composed of every authorization-response parameter incl. error / error_description with arbitrary values), aimed at an authenticated, a pending and an unknown session, through Process and through server.Check; (b) token-endpoint bodies from a JSON grammar (null, [], scalars, truncated, invalid UTF-8, duplicate keys, deep nesting, every member with every JSON type incl. 1e400) and validly signed ID tokens whose claims/headers have unexpected types, on the login and the refresh path; (c) odd discovery and JWKS documents; (d) half-empty store records and junk planted in Redis; (e) hostile requests over gRPC (incl. request-id metadata) against the built service binary, where a panic shows as the death of the process. Oracle: recover() => violation; verdict well-formedness. Non-trivial = the input got past request validation (an HTTP request was present) / reached the provider or the store; distinct = distinct input."
 	r.Assumptions = []string{"a silent peer (no answer at all) is out of scope; every simulated peer answers or closes the connection"}
 	parts := map[string]func(*sim.Case){"requests": c15Requests, "bodies": c15Bodies, "documents": c15Documents, "stores": c15Stores, "binary": c15Binary}
 	if r.Replay != "" {
